@@ -256,7 +256,7 @@ func rapidHistoryOpts(t *rapid.T, prop string, cfg world.Cfg, weights map[string
 		g.MaxSize = 90000 // finding F-33: larger contents cannot be read back
 		live.S.Exclude("F-33")
 	}
-	g.Avoid = avoid
+	g.Avoid = f33Avoid(cfg, avoid)
 	n := rapid.IntRange(1, *maxSteps).Draw(t, "nsteps")
 	var params hist.Params
 	if opts.Overwrite || opts.TapeLikeWriter {
